@@ -70,6 +70,22 @@ CHECKS = {
         note="Trusted: SHA-256 (sha2), MKTree collision freedom (C09), the certificate taken as already validated (C03). The harness's independent digests and root are cross-checked at start-up against the real CardanoImmutableDigester. Directory listing order is that of tmpfs. Files of 4-8 bytes, <=4 trios. The archive download/unpack path is C19's subject.",
         design="§4 C10",
     ),
+    "C11": dict(
+        level="exploration",
+        engine="mc-proofs",
+        technique="bounded exhaustive response tampering (small-scope input enumeration) on the real client verification path: every query of <=3 items x three proof formats x every alteration of a ~25-class alphabet (<=1 quick, <=2 thorough), and every edit of every small stake distribution",
+        text="Every query of <=3 items (present in 3 ranges, beyond-beacon, absent) over a 45-block / 3-range chain, in all three proof formats (legacy transaction sets, v2 transactions, v2 blocks) and at full and partial beacons, is answered honestly and then with every alteration of a ~25-class alphabet (item field edits incl. '/' inserted and characters moved across adjacent fields, items moved / renamed / added / duplicated / dropped, sub-proofs swapped / re-keyed / detached / taken from another chain, whole ranges grafted from a forged chain, master proof or root or path nodes edited, characters moved between an item's leaf and a neighbouring proof node, latest block number / offset / certificate pointer edited); every Cardano stake distribution of <=3 pools over 7 ids x 5 stakes and 1-3-signer Mithril stake distributions get every edit incl. moving characters across the id/stake boundary. Each case runs through the real verify -> compute_*_message -> match_message path against an independent set-membership oracle: certified => every reported item is in the signed set under the one signed root with the signed block number and offset; verified distribution => equals the certified map; honest answers are certified whole. 435k (quick) / 7.7M (thorough) evaluations.",
+        note="Honest proofs mirror the prover's steps (mithril-aggregator is not linked in this check) and every honest proof is asserted byte-equal to the real encoder. The certificate is trusted (C03 / C01). Chain hashes contain no '/'; certified pool ids do not begin with a digit; the Merkle layer itself is C09's subject.",
+        design="§4 C11",
+    ),
+    "C12": dict(
+        level="exploration",
+        engine="mc-db",
+        technique="bounded exhaustive differential enumeration on tmpfs over layouts, creation orders, extra-file placements, single-byte / single-file perturbations and cache histories of the real digester and signable builder",
+        text="Every database of a small lattice (1-3 quick / 1-4 thorough trios, file sizes 0/1/5 bytes plus one 8193-byte chunk, first number 0 or 1) is written to tmpfs in every enumerated creation order (all 24 orders of the top-level groups, all permutations of the trio files for 1-2 trios, 1 trio + 3 extras, thorough: all 9! orders of 3 trios) and with 20 extra-file placements (root, immutable/, ledger/, volatile/, siblings, look-alike names, directories named like files), with files beyond the beacon, at every beacon, through three entry points (compute_merkle_tree without cache, CardanoDatabaseSignableBuilder with a memory cache, with the JSON cache) and three handed-in directories; put through every cache history of 3 (quick) / 4 (thorough) steps over {Merkle(b), Range(lo,hi), reset, reopen} with the memory and JSON caches; and perturbed in every single byte and file without cache. Identical covered content must give bit-identical roots; every covered change a different root; every uncovered change the same root. 571k (quick) / 12M (thorough) evaluations.",
+        note="The reference is the real code's own cache-less answer on the canonical layout (differential oracle; SHA-256 and MKTree are not re-implemented, the sensitivity clauses guard against vacuity). tmpfs readdir order is a function of creation order; the run counts distinct listings and refuses a verdict if fewer than 720 appear for 6 files. Cache histories are over unchanged files only. Symlinks, a second 'immutable' directory found only by the fallback walk, unpadded or unparsable immutable-extension names are observations, not judged.",
+        design="§4 C12",
+    ),
     "C14": dict(
         level="model_checking",
         engine="mc-aggregator",
